@@ -20,8 +20,15 @@
 (*   HeadEvent(R)       HandleHeadEvent; R = epochs whose attester duties it refreshes (reorg):       *)
 (*                    cancel their jobs, fetch, reschedule, resubscribe; subscription and           *)
 (*                    (with inclusion verification) slot data housekeeping                          *)
+(*   Resched(E)       the second half of a refresh whose duty request the node answered late: the   *)
+(*                    jobs of the epochs E are set up (HeadEvent then was the cancel half only)     *)
 (*   AttStart(s)      the attestation job of slot s starts: leaves the table, attester notes epoch  *)
 (*   AttEnd(s, ok)    AttestAndScheduleAggregate returns: mark cleared, attester housekeeping       *)
+(*                    Attestation jobs have DURATION: between AttStart(s) and AttEnd(s) any other    *)
+(*                    step may happen - head events that refresh the epoch of s (CancelJob for s     *)
+(*                    fails: the job has left the table, it is neither withdrawn nor finished),     *)
+(*                    the late reschedule, the start of the next slot's job, the clock, probes.     *)
+(*   Probe            HasPendingAttestations is consulted (a shutdown was requested): no change     *)
 (*   SyncMsg(s, ok)   messenger Message: head root noted for aggregation, slot data recorded        *)
 (*   SyncAgg(s)       aggregator Aggregate (only when a validator is an aggregator): root consumed  *)
 (*   Auction(s)       block relay AuctionBlock: winning (or dummy) bid cached                       *)
@@ -32,8 +39,10 @@
 (* disappears only by firing or by being withdrawn in that step; entries may be removed at any      *)
 (* time (housekeeping is free).  The property is the invariants below.  Design(...) is one concrete *)
 (* housekeeping design ("design": window pruning, mark cleared with the withdrawn job - the         *)
-(* repaired code; "pinned": the code as found); the exhaustive runs use it to choose q, trace       *)
-(* validation takes q from what the real services did.                                              *)
+(* repaired code; "pinned": the code as found; "clearall": the refresh clears the mark of EVERY     *)
+(* slot of the epoch, whether or not its CancelJob succeeded - a self-check: it must violate        *)
+(* PendingExact, and only in states with a running job); the exhaustive runs use it to choose q,    *)
+(* trace validation takes q from what the real services did.                                        *)
 EXTENDS Integers, FiniteSets, Sequences, TLC
 
 CONSTANTS P,         \* slots per epoch
@@ -42,7 +51,7 @@ CONSTANTS P,         \* slots per epoch
                      \* at most G consecutive epochs in which attestations ran but none succeeded
           StartSlots,\* slots at which the service may be started
           MaxSlot,   \* last slot explored
-          Mode,      \* "design" | "pinned" (which concrete housekeeping Design(...) is)
+          Mode,      \* "design" | "pinned" | "clearall" (which concrete housekeeping Design(...) is)
           RecMax, RecKeep,      \* slotDataRecords clean-up thresholds of the code (100, 32)
           RootKeep, BidKeep,    \* windows (slots) of the design's prune-on-insert
           KRoots, KBids,        \* bounds (cardinalities) the property is checked with
@@ -133,6 +142,21 @@ HeadEvent(F, q) ==
     /\ Apply(q)
     /\ UNCHANGED <<now, up, verify, aggmode, running>>
 
+\* The node answered the refresh's duty request late: HeadEvent(F) was the cancel half (the jobs of F
+\* withdrawn, the request made), this is the reschedule half for the epochs E.
+Resched(E, q) ==
+    /\ up
+    /\ Allowed(q, Future(E), {}, {}, {}, {}, E, {}, {}, {})
+    /\ Apply(q)
+    /\ UNCHANGED <<now, up, verify, aggmode, running>>
+
+\* HasPendingAttestations is consulted (main.go does on SIGTERM): nothing may appear
+Probe(q) ==
+    /\ up
+    /\ Allowed(q, {}, {}, {}, {}, {}, {}, {}, {}, {})
+    /\ Apply(q)
+    /\ UNCHANGED <<now, up, verify, aggmode, running>>
+
 AttStart(s, q) ==
     /\ up
     /\ s \in attjobs
@@ -203,7 +227,17 @@ JobsBounded == njobs <= KJobs
 
 \* C20: "A slot is reported as having pending attestations exactly from the moment its attestation job
 \* is set up until that job has finished or been withdrawn"
+\* It is an invariant of EVERY state, in particular of those in which a job is running: a refresh, a
+\* late reschedule, another job's start or end, the clock must leave the mark of a running job alone.
 PendingExact == pend = attjobs \cup running
+
+\* What an observer that only looks when no job is running can see of it (the first version of this check:
+\* the driver ran every job to its end before the next stimulus).  The "clearall" housekeeping satisfies
+\* this and violates PendingExact: the difference is the reason for giving jobs duration.
+PendingExactAtRest == running = {} => PendingExact
+
+\* (model sanity, exhaustive runs only) a job that runs has left the table
+RunningLeftTable == attjobs \cap running = {}
 
 -----------------------------------------------------------------------------
 (* A concrete housekeeping design, used by the exhaustive and simulated runs to choose q.          *)
@@ -217,7 +251,11 @@ HkRoots(S, s) == IF Mode = "pinned" THEN S ELSE Keep(S, s - RootKeep)
 Clean(S, s) == IF Cardinality(S) > RecMax THEN Keep(S, s - RecKeep) ELSE S    \* RemoveHistoricDataUsedForSlotVerification
 HkRecords(S, s) == IF Mode = "pinned" THEN S ELSE Clean(S, s)
 HkBids(S, s) == IF Mode = "pinned" THEN S ELSE Keep(S, s - BidKeep)
-Unmark(p, cancelled) == IF Mode = "pinned" THEN p ELSE p \ cancelled
+\* cancelled = the slots whose CancelJob succeeded, F = the refreshed epochs
+Unmark(p, cancelled, F) ==
+    CASE Mode = "pinned" -> p
+      [] Mode = "clearall" -> p \ SlotsOfAll(F)       \* also the slot of a running job (CancelJob failed)
+      [] OTHER -> p \ cancelled
 
 Count(a, pj) == Cardinality(a) + Cardinality(pj)
 
@@ -237,16 +275,26 @@ DPrepare(e, d) ==
     IN [Cur EXCEPT !.attjobs = a, !.prepjobs = pj, !.pend = pend \cup (a \ attjobs),
                    !.subs = subs \cup {e}, !.njobs = Count(a, pj)]
 
-\* refresh of the epochs in F (an epoch that is not prepared yet is left alone by the code)
-DHead(F, D) ==
+\* refresh of the epochs in F (an epoch that is not prepared yet is left alone by the code): cancel each
+\* slot's job (succeeds exactly for the jobs in the table - not for a job that is running), fetch, set up
+\* the jobs of the new duties (the current slot only if its job was cancelled).  split: the node answers
+\* the fetch late, the head event ends with the jobs cancelled; DResched is the rest.
+DHead(F, D, split) ==
     LET cancelled == attjobs \cap SlotsOfAll(F)
-        added == {s \in UNION {D[e] : e \in F} : s > now \/ (s = now /\ now \in cancelled)}
+        added == IF split THEN {}
+                 ELSE {s \in UNION {D[e] : e \in F} : s > now \/ (s = now /\ now \in cancelled)}
         a == (attjobs \ cancelled) \cup added
     IN [Cur EXCEPT !.attjobs = a,
-                   !.pend = Unmark(pend, cancelled) \cup added,
+                   !.pend = Unmark(pend, cancelled, F) \cup added,
                    !.subs = HkEpochs(subs \cup F, Epoch(now)),
                    !.records = IF verify THEN Clean(records, now) ELSE records,
                    !.njobs = Count(a, prepjobs)]
+
+\* r = [e, cur, d]: refresh of epoch e under way, cur = the current slot's job was cancelled, d = new duties
+DResched(r) ==
+    LET added == {s \in r.d : s > now \/ (s = now /\ r.cur)}
+        a == attjobs \cup added
+    IN [Cur EXCEPT !.attjobs = a, !.pend = pend \cup added, !.njobs = Count(a, prepjobs)]
 
 DAttStart(s) ==
     [Cur EXCEPT !.attjobs = attjobs \ {s}, !.attested = attested \cup {Epoch(s)},
@@ -268,7 +316,12 @@ DAuction(s) == [Cur EXCEPT !.bids = HkBids(bids \cup {s}, s)]
 (* Closed system for TLC: the environment's choices and a timely scheduler.                         *)
 (* env: ticked = last epoch the ticker ran for, did = once-per-slot steps done in this slot,        *)
 (* headE / attE / okE = this epoch had a head event / an attestation run / a successful one,        *)
-(* hgap / fgap = consecutive finished epochs without head event / with attestations but no success. *)
+(* hgap / fgap = consecutive finished epochs without head event / with attestations but no success, *)
+(* okrun = running jobs whose attestation will succeed, refr = refreshes whose reschedule half is    *)
+(* outstanding (the node answers within the slot).                                                  *)
+(* Jobs have duration: a job may still run when the next slot begins (it ends in that slot); head   *)
+(* events (with and without refresh), late reschedules, the next job's start, sync committee steps, *)
+(* probes and the clock interleave with running jobs.                                               *)
 
 IsAgg(s) == aggmode = "always" \/ (aggmode = "third" /\ s % 3 = 0)
 
@@ -277,7 +330,7 @@ HasSync == env.fam \in {"sync", "all"}
 Duties(e) == IF HasAtt THEN {{First(e) + o : o \in m} : m \in Menu} ELSE {{}}
 
 Env0 == [ticked |-> -1, did |-> {}, headE |-> FALSE, attE |-> FALSE, okE |-> FALSE, hgap |-> 0, fgap |-> 0,
-         fam |-> "all", attok |-> TRUE, mood |-> "reorg", reorgs |-> 0]
+         fam |-> "all", okrun |-> {}, refr |-> {}, mood |-> "reorg", reorgs |-> 0]
 
 Init ==
     /\ now \in StartSlots
@@ -313,28 +366,48 @@ NPrepare(d) ==
 
 \* F = epochs whose duties the head event makes the controller refresh (their dependent root changed);
 \* d0 / d1 = the new duties of the current / next epoch (empty when not refreshed)
-NHead(F, d0, d1) ==
-    /\ up /\ "head" \notin env.did /\ running = {}
+NHead(F, d0, d1, split) ==
+    /\ up /\ "head" \notin env.did
     /\ env.mood # "quiet"
     /\ F \in SUBSET {Epoch(now), Epoch(now) + 1}
     /\ F # {} => (env.mood = "reorg" /\ env.reorgs < MaxReorgs)
-    /\ (Epoch(now) + 1) \in F => (Epoch(now) + 1) \notin prepjobs     \* not prepared yet: no refresh
+    /\ split \in BOOLEAN /\ (split => (F # {} /\ HasAtt))
+    /\ \A r \in env.refr : r.e \notin F
+    \* the next epoch is refreshed only when it has been prepared (this epoch's tick has set up its prepare job
+    \* and that job has run), and - as the code notices a change of the current dependent root only on a head
+    \* event that is not the first of its epoch - after an earlier head event of this epoch
+    /\ (Epoch(now) + 1) \in F => ((Epoch(now) + 1) \notin prepjobs /\ env.ticked = Epoch(now) /\ env.headE)
     /\ d0 \in Duties(Epoch(now)) /\ d1 \in Duties(Epoch(now) + 1)
     /\ (Epoch(now) \notin F => d0 = {}) /\ ((Epoch(now) + 1) \notin F => d1 = {})   \* canonical
-    /\ HeadEvent(F, DHead(F, DutyMap(d0, d1)))
-    /\ env' = [env EXCEPT !.did = @ \cup {"head"}, !.headE = TRUE, !.reorgs = IF F = {} THEN @ ELSE @ + 1]
+    /\ HeadEvent(F, DHead(F, DutyMap(d0, d1), split))
+    /\ env' = [env EXCEPT !.did = @ \cup {"head"}, !.headE = TRUE, !.reorgs = IF F = {} THEN @ ELSE @ + 1,
+                          !.refr = IF split
+                                     THEN @ \cup {[e |-> e, cur |-> (e = Epoch(now) /\ now \in attjobs),
+                                                   d |-> DutyMap(d0, d1)[e]] : e \in F}
+                                     ELSE @]
+
+NResched(r) ==
+    /\ up /\ r \in env.refr
+    /\ Resched({r.e}, DResched(r))
+    /\ env' = [env EXCEPT !.refr = @ \ {r}]
 
 NAttStart(ok) ==
-    /\ up /\ now \in attjobs /\ running = {}
+    /\ up /\ now \in attjobs
     /\ AttStart(now, DAttStart(now))
     /\ ok \in BOOLEAN
     /\ ~ok => (env.okE \/ env.fgap < G)          \* Env_OutageBounded
-    /\ env' = [env EXCEPT !.attok = ok, !.attE = TRUE]
+    /\ env' = [env EXCEPT !.okrun = IF ok THEN @ \cup {now} ELSE @, !.attE = TRUE]
 
-NAttEnd ==
-    /\ up /\ now \in running
-    /\ AttEnd(now, DAttEnd(now, env.attok))
-    /\ env' = [env EXCEPT !.okE = @ \/ env.attok]
+NAttEnd(s) ==
+    /\ up /\ s \in running
+    /\ AttEnd(s, DAttEnd(s, s \in env.okrun))
+    /\ env' = [env EXCEPT !.okE = @ \/ (s \in env.okrun), !.okrun = @ \ {s}]
+
+\* a shutdown is requested while an attestation is in flight
+NProbe ==
+    /\ up /\ running # {}
+    /\ Probe(Cur)
+    /\ UNCHANGED env
 
 NSyncMsg(ok) ==
     /\ up /\ HasSync /\ "msg" \notin env.did
@@ -348,9 +421,12 @@ NSyncAgg ==
     /\ SyncAgg(now, DSyncAgg(now))
     /\ Did("agg")
 
-\* the timely scheduler has run everything that is due in this slot
+\* the timely scheduler has started everything that is due in this slot; an attestation started in this
+\* slot may still be running (it ends in the next slot, and within its epoch), one started earlier has
+\* ended; the node has answered
 SlotDone ==
-    /\ now \notin attjobs /\ running = {}
+    /\ now \notin attjobs /\ env.refr = {}
+    /\ running \subseteq (IF Epoch(now + 1) = Epoch(now) THEN {now} ELSE {})
     /\ ~PrepDue
     /\ HasSync => "msg" \in env.did
     /\ ("msgok" \in env.did /\ IsAgg(now)) => "agg" \in env.did
@@ -382,11 +458,22 @@ Next ==
     \/ \E d0, d1 \in AllDuties : NStart(d0, d1)
     \/ NTick
     \/ \E d \in AllDuties : NPrepare(d)
-    \/ \E F \in SUBSET {Epoch(now), Epoch(now) + 1} : \E d0, d1 \in AllDuties : NHead(F, d0, d1)
+    \/ \E F \in SUBSET {Epoch(now), Epoch(now) + 1} : \E d0, d1 \in AllDuties : \E split \in BOOLEAN :
+         NHead(F, d0, d1, split)
+    \/ \E r \in env.refr : NResched(r)
     \/ \E ok \in BOOLEAN : NAttStart(ok)
-    \/ NAttEnd
+    \/ \E s \in running : NAttEnd(s)
+    \/ NProbe
     \/ \E ok \in BOOLEAN : NSyncMsg(ok)
     \/ NSyncAgg \/ NAdvance \/ NAuction
 
 Spec == Init /\ [][Next]_vars
+
+\* Reachability witnesses (each must be VIOLATED by the exhaustive run of the design, else the model does
+\* not contain the situation): a refresh has cancelled the jobs of an epoch while the job of one of its
+\* slots is running - CancelJob for that slot failed; the same with the running job's slot among the new
+\* duties and the reschedule outstanding; two jobs running at once.
+NeverRefreshOverRunning == ~(\E r \in env.refr : \E s \in running : Epoch(s) = r.e /\ s \notin attjobs)
+NeverReschedOverRunning == ~(\E r \in env.refr : \E s \in running : s \in r.d)
+NeverTwoRunning == Cardinality(running) < 2
 =============================================================================
